@@ -134,6 +134,9 @@ def scope_mutators():
             if find_seq(toks, ["let", "mut"], b[0], b[1]) >= 0 and find_seq(toks, ["lock", "(", ")"], b[0], b[1]) >= 0 \
                     and any(toks[k].text == "=" and toks[k - 1].text == "]" for k in range(b[0], b[1])):
                 kinds.append("index-assign")
+            if any(toks[k].text == "*" and toks[k + 1].kind == "ident" and toks[k + 2].text in ("=", "+=", "-=")
+                   and toks[k - 1].text in (";", "{", "}") for k in range(b[0] + 1, b[1] - 2)):
+                kinds.append("deref-assign")
             guard = find_seq(toks, ["ModifiedBuiltin"], b[0], b[1]) >= 0
             touches = sorted({toks[k + 2].text for k in range(b[0], b[1] - 2)
                               if toks[k].text == "self" and toks[k + 1].text == "." and toks[k + 2].text in [f[0] for f in fields if f[2]]}
